@@ -467,6 +467,11 @@ def explain(c, r):
     return r
 
 
+OUT_NAMES = {0: "frame", 1: "StopIteration", 2: "render error", 3: "hang", 4: "seek ok", 5: "seek out of range",
+             6: "seek before start", 7: "seek after end", 8: "closed", 9: "size changed"}
+URL_NAMES = {0: "ok", 1: "404", 2: "not an image", 3: "bad constructor argument", 4: "used after close", 9: "other"}
+
+
 def run(ctx):
     rng = ctx.rng
     if ctx.replay:
@@ -503,7 +508,7 @@ def run(ctx):
             for o in c["ops"]:
                 inc(hist["iter_ops"], o[0])
             for row in r["rows"]:
-                inc(hist["iter_outcomes"], row[0])
+                inc(hist["iter_outcomes"], OUT_NAMES.get(row[0], row[0]))
             kinds = {o[0] for o in c["ops"]}
             if sum(1 for row in r["rows"] if row[0] == 0) >= 2 and (kinds & {"seek", "size", "close", "drop"} or
                                                                    any(row[0] == 1 for row in r["rows"])):
@@ -525,7 +530,7 @@ def run(ctx):
             evaluations += 1
             for o, row in zip(c["ops"], r["rows"]):
                 inc(hist["url_ops"], o[0])
-                inc(hist["url_errors"], row[0])
+                inc(hist["url_errors"], URL_NAMES.get(row[0], row[0]))
             if len(c["ops"]) >= 3:
                 distinct.add(signature(c))
     mismatches, failures = [], []
@@ -567,7 +572,10 @@ def run(ctx):
                 "generated scenarios, all for the corpus); one evaluation per run; non-trivial: the fault was reached or the "
                 "argument was rejected.  url: open (200 image / 404 / non-image / empty body / bad constructor argument) / use / "
                 "close / with / del histories over 3 slots.",
-        "samples": [describe(c) for c in (cases[:2] + cases[len(ITER_CORPUS) + 1:len(ITER_CORPUS) + 3] + cases[-2:])],
+        "samples": [describe(c) for c in (
+            [c for c in cases if c["part"] == "iter"][:1] + [c for c in cases if c["part"] == "iter"][len(ITER_CORPUS):][:1]
+            + [c for c in cases if c["part"] == "fault"][:1] + [c for c in cases if c["part"] == "fault"][len(FAULT_CORPUS):][:2]
+            + [c for c in cases if c["part"] == "url"][-1:])],
         "histogram": hist,
         "mismatches": mismatches,
         "failures": failures,
